@@ -192,14 +192,17 @@ void *ir_vp_file(void){ return &vp_file; }
 
 /* ---- posix_memalign by contract (C14): precondition asserted; returns ENOMEM or a fresh block of exactly `size` bytes at offset 0 ---- */
 #ifdef NEED_ir_posix_memalign
-u32 vp_memalign_calls; u64 vp_memalign_last_align, vp_memalign_last_size; void *vp_memalign_last_ptr;
+u32 vp_memalign_calls; u64 vp_memalign_last_align, vp_memalign_last_size; void *vp_memalign_last_ptr; int vp_memalign_may_fail;
 u32 ir_posix_memalign(void *pp, u64 align, u64 size)
 {
   __CPROVER_assert(align != 0 && (align & (align - 1)) == 0 && align % sizeof(void*) == 0, "VP:posix_memalign precondition: alignment is a power of two and a multiple of sizeof(void*)");
   vp_memalign_calls++; vp_memalign_last_align = align; vp_memalign_last_size = size;
-  if (size > VP_HEAP_MAX || nondet_u8()) { vp_memalign_last_ptr = 0; return 12; }
+  if (size > VP_HEAP_MAX || (vp_memalign_may_fail && nondet_u8())) { vp_memalign_last_ptr = 0; return 12; }
   void *p = vp_alloc(size); *(void**)pp = p; vp_memalign_last_ptr = p; return 0;
 }
+#endif
+#ifdef NEED_ir_vp_memalign_mode
+void ir_vp_memalign_mode(u32 may_fail){ vp_memalign_may_fail = (int)may_fail; }
 #endif
 #ifdef NEED_ir_vp_memalign_info
 void ir_vp_memalign_info(void *calls, void *align, void *size, void *ptr){ *(u32*)calls = vp_memalign_calls; *(u64*)align = vp_memalign_last_align; *(u64*)size = vp_memalign_last_size; *(void**)ptr = vp_memalign_last_ptr; }
@@ -237,4 +240,23 @@ void ir__ZNSt18condition_variable10notify_oneEv(void *cv){ if (vp_cv_waiting) vp
 #endif
 #ifdef NEED_ir__ZNSt18condition_variable10notify_allEv
 void ir__ZNSt18condition_variable10notify_allEv(void *cv){ if (vp_cv_waiting) vp_cv_signal = 1; }
+#endif
+
+#if defined(NEED_ir__ZNSt18condition_variable4waitERSt11unique_lockISt5mutexE) && defined(NEED_ir_pthread_mutex_lock) && defined(NEED_ir_pthread_mutex_unlock)
+void ir__ZNSt18condition_variable4waitERSt11unique_lockISt5mutexE(void *cv, void *lk)
+{
+  void *m = *(void**)lk;
+  ir_pthread_mutex_unlock(m);
+  vp_cv_waiting = 1;
+  ir_vp_cv_block();                      /* harness: the other thread acts; returns when it has nothing more to do or a signal is pending */
+  __CPROVER_assume(vp_cv_signal);        /* woken only by a signal (no spurious wake-ups: this is what exposes a lost wake-up) */
+  vp_cv_signal = 0; vp_cv_waiting = 0;
+  ir_pthread_mutex_lock(m);
+}
+#endif
+#ifdef NEED_ir_vp_cv_pending
+u32 ir_vp_cv_pending(void){ return vp_cv_signal; }
+#endif
+#ifdef NEED_ir_vp_in_join
+u32 ir_vp_in_join(void){ return vp_in_join; }
 #endif
